@@ -249,7 +249,15 @@ def rule_handover(ctx, rep):
             rep.check(all("@call_rcu_mutex" in ls.get(x.id, ()) for x in sp), "C03.handover", fl + ".splice-under-mutex", "hand-over splice runs under call_rcu_mutex",
                       "hand-over splice without call_rcu_mutex", [x.where() for x in sp])
             wk = [i for i in pat.loads(f, "call_rcu_data.futex") if i.id in f.reachable_set(sp)]
-            rep.check(bool(wk), "C03.handover", fl + ".wake-default", "default helper is woken after the hand-over", "default helper not woken after receiving callbacks", [sp[0].where()])
+            # the helper that is woken is the one that received the callbacks (default_call_rcu_data), not the dying one
+            def _is_default(i):
+                b = i.d["ap"]["base"]
+                bi = f.inst_of(b)
+                return bi is not None and bi.op == "load" and pat.base_global(bi.d["ap"]) == "default_call_rcu_data"
+            wkd = [i for i in wk if _is_default(i)]
+            rep.check(bool(wkd), "C03.handover", fl + ".wake-default", "the default helper (which received the callbacks) is woken after the hand-over",
+                      "after the hand-over splice the receiving (default) helper is not woken%s: if it sleeps, the handed-over callbacks - possibly an rcu_barrier() marker - are never run"
+                      % (" (the dying helper is woken instead)" if wk else ""), [sp[0].where()])
             ql = [e.inst for e in pat.accesses(f, "call_rcu_data.qlen", ("rmw",)) if e.inst.id in f.reachable_set(sp)]
             rep.check(bool(ql), "C03.handover", fl + ".qlen", "default helper's qlen credited", "qlen of the default helper not updated", [sp[0].where()])
         # list removal: under the mutex, and in the same critical section as the hand-over (no unlock between splice and list_del)
